@@ -29,7 +29,7 @@ ASSUMPTIONS = [
 ]
 
 
-HIST_ALPHA = {'build': 8, 'apply': 2, 'let_const': 8, 'let_rename': 8, 'let_compose': 10, 'drop': 6, 'gc': 5, 'swap': 3, 'sift': 1, 'reorder_to': 1, 'declare': 1, 'var': 1, 'undeclare': 3, 'add_var': 1, 'quantify': 1, 'gc_roots': 1}
+HIST_ALPHA = {'build': 8, 'repeat': 6, 'apply': 2, 'let_const': 8, 'let_rename': 8, 'let_compose': 10, 'drop': 6, 'gc': 5, 'swap': 3, 'sift': 1, 'reorder_to': 1, 'declare': 1, 'var': 1, 'undeclare': 3, 'add_var': 1, 'quantify': 1, 'gc_roots': 1}
 
 
 def _hist_nontrivial(w):
